@@ -129,7 +129,7 @@ theorem self_concat_aliased {α : Type} [Inhabited α] (p : List Nat) (x : List 
   · rw [he]
     exact (applyPermInv_undoes _ hc.1 x (by simpa using hx)).1
 
-theorem random_ctor_bijection (s : List Nat) (hn : 0 < s.length)
+theorem random_ctor_bijection (s : List Nat)
     (hs : ∀ i, i + 1 < s.length → i ≤ s.getD i 0 ∧ s.getD i 0 < s.length) (hl : s.getD (s.length - 1) 0 = s.length - 1) :
     Perm.isBijection (Perm.permFromSwap s) = true := by
   apply permFromSwap_bijection
@@ -140,11 +140,9 @@ theorem random_ctor_bijection (s : List Nat) (hn : 0 < s.length)
     subst this
     rw [hl]; omega
 
-theorem graph_permuted_spec (g : Graph) (dp ip : List Nat) (hd : Perm.isBijection dp = true)
-    (hlen : dp.length = g.nDom) (i : Nat) (hi : i < g.nDom) :
+theorem graph_permuted_spec (g : Graph) (dp ip : List Nat) (hlen : dp.length = g.nDom) (i : Nat) (hi : i < g.nDom) :
     (g.permuted dp ip).nDom = g.nDom ∧ (g.permuted dp ip).nImg = g.nImg ∧
     (g.permuted dp ip).row i = (g.row (dp.getD i 0)).map fun k => ip.getD k 0 := by
-  have _ := hd
   refine ⟨?_, rfl, ?_⟩
   · simp [Graph.permuted, Graph.nDom, hlen] at *
   · have hi' : i < dp.length := by omega
